@@ -681,10 +681,26 @@ def check_c20(model, rep, tier):
     cx = facts.fctx(model, f)
     rets = [ev for ev in cx.events if ev.kind == "return"]
     # ... i.e. whenever the path is not one of the URL forms (the URL test may be conjoined with an isinstance(str) test)
+    def url_test(t):
+        # path.startswith(("http://", "https://", ...)): a test for URL schemes and nothing else
+        if not (t[0] == "call" and t[1] == ("attr", P(cx.params[0]), "startswith") and len(t[2]) == 1):
+            return False
+        a = t[2][0]
+        items = a[1] if a[0] == "tuple" else (a,)
+        return bool(items) and all(x[0] == "const" and isinstance(x[1], str) and x[1].endswith("://") for x in items)
+
+    def is_inst(t):
+        return t[0] == "call" and t[1] == ("global", "isinstance")
+
+    def url_cond(t):
+        # the URL test, possibly conjoined with isinstance(path, str) tests
+        if url_test(t):
+            return True
+        return t[0] == "boolop" and t[1] == "and" and all(url_test(x) or is_inst(x) for x in t[2]) and any(url_test(x) for x in t[2])
+
     def local_branch(r):
-        atoms = facts.guard_atoms(facts.own_guards(cx, r))
-        return all(not pol or (t[0] == "call" and t[1] == ("global", "isinstance")) for t, pol in atoms) or all(
-            not g[1] for g in r.guards)
+        atoms = facts.guard_atoms(r.guards)
+        return all((not pol and url_cond(t)) or (pol and is_inst(t)) for t, pol in atoms) and any(not pol and url_cond(t) for t, pol in atoms)
     ok = any(r.value == ("call", ("global", "os.path.exists"), (P(cx.params[0]),), ()) and local_branch(r) for r in rets)
     rep.ob("R-LAYOUT-ORDER", "common._file_exists:local", ok, site=cx.site(f.node),
            msg="" if ok else "_file_exists must be os.path.exists for local paths")
